@@ -220,12 +220,13 @@ func TestC05(t *testing.T) {
 				"C05 %s (%s), class index %d, long form %v, wire layout %v: %s\n bytes: %s", v.Type().Name(), what, k, long, plan, failure, hexClip(b, 300))
 		}
 	}
-	indices := []int{0, 1, 2, 15, 16, 17, 40}
+	indices := []int{0, 1, 2, 15, 16, 17, 40, 255, 256, 300}
 	if rec.Thorough() {
 		indices = nil
 		for k := 0; k <= 40; k++ {
 			indices = append(indices, k)
 		}
+		indices = append(indices, 127, 128, 255, 256, 257, 300, 511, 512)
 	}
 	for _, v := range vals {
 		nf := v.NumField()
